@@ -113,6 +113,14 @@ def make_pair(net, variant, rng):
         start0 = datetime.fromisoformat(net["start"])
         base["events"].append({"scope": "scenario_step", "scope_instance_id": 0, "start_time": sk.iso(start0 + timedelta(seconds=net["step"] * net["shared_addition"])),
                                "event_type": "target_addition", "tasking_engine_id": 1, "target_agent": sk.target_cfg(19500, r2, v2)})
+    # per-agent physical properties differ (area-to-mass ratio enters the SRP term of the perturbed truth model)
+    import random as _random
+
+    prng = _random.Random(net["seed"] * 7 + 1)
+    for t in base["engines"][0]["targets"]:
+        t["platform"]["mass"] = prng.choice([50.0, 100.0, 500.0, 2000.0])
+        t["platform"]["visual_cross_section"] = prng.choice([0.5, 5.0, 25.0, 60.0])
+        t["platform"]["reflectivity"] = prng.choice([0.1, 0.21, 0.6])
     a, b = copy.deepcopy(base), copy.deepcopy(base)
     ka, kb = {}, {}
     n = net["nsteps"]
@@ -135,7 +143,9 @@ def make_pair(net, variant, rng):
         b["noise"]["random_seed"] = net["seed"] + 17
         kb["base_seed"] = 991
     elif variant == "output_cadence":
-        b["time"]["output_step_sec"] = net["step"] * rng.choice([2, 3])
+        # multiples, non-multiples and output steps shorter than the physics step
+        st = net["step"]
+        b["time"]["output_step_sec"] = rng.choice([st * 2, st * 3, st + st // 2, max(2, st // 2), max(2, st - st // 3), st + 7])
     elif variant == "split_calls":
         if n >= 2:
             k = rng.randrange(1, n)
@@ -152,10 +162,12 @@ def make_pair(net, variant, rng):
     elif variant == "extra_target_static":
         r, v = sk.circ_state(8100.0, 77.0, 12.0, 222.0)
         # first or last in the engine's list: jobs run (and touch any process-wide state) in that order
-        b["engines"][0]["targets"].insert(rng.choice([0, len(b["engines"][0]["targets"])]), sk.target_cfg(19001, r, v))
+        extra = sk.target_cfg(19001, r, v)
+        extra["platform"].update({"mass": 10.0, "visual_cross_section": 40.0, "reflectivity": 0.9})
+        b["engines"][0]["targets"].insert(rng.choice([0, len(b["engines"][0]["targets"])]), extra)
     elif variant == "fewer_targets_static":
         if len(b["engines"][0]["targets"]) > 1:
-            b["engines"][0]["targets"].pop(rng.randrange(len(b["engines"][0]["targets"])))
+            b["engines"][0]["targets"].pop(rng.choice([0, 0, rng.randrange(len(b["engines"][0]["targets"]))]))
     elif variant == "target_added_by_event":
         r, v = sk.circ_state(8100.0, 77.0, 12.0, 222.0)
         start = datetime.fromisoformat(net["start"])
@@ -260,6 +272,9 @@ def run(ctx):
             net2["nsteps"] = 3
             real_ray_pair(ctx, net2)
         variant = VARIANTS[(i * ctx.nshards + ctx.shard) % len(VARIANTS)] if ctx.quick else rng.choice(VARIANTS)
+        if variant in ("extra_target_static", "fewer_targets_static", "target_added_by_event", "target_removed_by_event", "exec_order_reverse", "exec_order_random") and rng.random() < 0.6:
+            # agent-set and execution-order variants matter most where agents share more than the point-mass model
+            net["truth_model"] = "special_perturbations"
         if variant == "filter_model":
             # agents built after the estimates (spacecraft-hosted sensors, agents added by events) are the ones that
             # could inherit filter settings: make sure this variant always has some
